@@ -108,9 +108,9 @@ Lemma update_pop_refresh_needs_dpop_enabled :
 Proof.
   pose (cfg := mkConfig POpenID [] [] [] [] false 0 0 IssueNever false 0 false false "" [] false false 0 false
                  false false false false false 0 false false false false false false false false false
-                 false false false false false false false "" false []).
-  pose (c := mkClient 1 false [] [] [] "" CibaNone false false false false false false false 0 false).
-  pose (g := mkGSession 1 1 1 0 0 0 GRefreshToken "" 1 "" "" 7 0 [] []).
+                 false false false false false false false "" false [] false [] CmpNone).
+  pose (c := mkClient 1 false [] [] [] "" CibaNone false false false false false false false 0 false None).
+  pose (g := mkGSession 1 1 1 0 0 0 GRefreshToken "" 1 "" "" 7 0 [] [] [] []).
   exists cfg, c, (mkBind (Some junk_proof) 0), g. repeat split; reflexivity.
 Qed.
 
